@@ -298,6 +298,10 @@ def _check_symmetry_relations(ctx, co, model):
     k2, S2 = model.run(co, [A, c, model.spd(), c.copy()])
     k3, SAB = model.run(co, [A, c, B, c])
     k4, SBA = model.run(co, [B, c, A, c])
+    # the same basis *object* given twice with another geometry for the second copy is still a two-basis call
+    c2 = c + np.array([[0.3, -0.2, 0.1], [-0.4, 0.25, 0.15], [0.05, 0.35, -0.3], [-0.15, -0.1, 0.45]])
+    k5, Ssame = model.run(co, [A, c, A, c2])
+    k6, Scopy = model.run(co, [A, c, model.spd(), c2])
     bad = None
     if "raises" in (k1, k2, k3, k4):
         which = [lab for lab, k in (("one basis", k1), ("the same basis given twice", k2), ("bases (s p d d) x (s p)", k3), ("bases (s p) x (s p d d)", k4)) if k == "raises"][0]
@@ -310,6 +314,8 @@ def _check_symmetry_relations(ctx, co, model):
             bad = f"the one-basis matrix is not symmetric ({_mdiff(S1, S1.T)})"
         elif _mdiff(S1, S2):
             bad = f"the same basis given as second argument gives another matrix than the one-basis call ({_mdiff(S2, S1)})"
+        elif "raises" in (k5, k6) or _mdiff(Ssame, Scopy):
+            bad = "the same basis object given twice with two different geometries does not give the matrix of two equal bases at those geometries (" + (str(Ssame if k5 == "raises" else Scopy) if "raises" in (k5, k6) else _mdiff(Ssame, Scopy)) + ")"
         elif SAB.shape != (15, 4) or _mdiff(SAB, SBA.T):
             bad = f"exchanging the two bases does not transpose the matrix ({'shape ' + str(SAB.shape) if SAB.shape != (15, 4) else _mdiff(SAB, SBA.T)})"
     if bad:
